@@ -411,6 +411,15 @@ impl<'a> From<Piece<'a>> for Chunk {
                         None => "%+".to_owned(),
                     };
 
+                    // chrono reports an invalid format specifier only while
+                    // formatting, by failing the `Display` impl, which makes
+                    // `write!` panic. Surface it as an error chunk instead.
+                    if chrono::format::StrftimeItems::new(&format)
+                        .any(|item| matches!(item, chrono::format::Item::Error))
+                    {
+                        return Chunk::Error(format!("invalid date format `{}`", format));
+                    }
+
                     let timezone = match formatter.args.get(1) {
                         Some(arg) => {
                             if let Some(arg) = arg.first() {
